@@ -397,6 +397,45 @@ func c02Fixed(c *core.Ctx, run func(i int64, p *lang.Program, tag string)) int64
 			}
 		}
 	}
+	// chains of blocks nested 1..16 deep (the supported depth) with variables declared at every level:
+	// each level reads the variables of all enclosing levels, shadows one of them, and after the inner
+	// block has closed its own variables are still variables
+	for depth := 1; depth <= 16; depth++ {
+		for variant := 0; variant < 4; variant++ {
+			if c.Mine(i) {
+				var mk func(d int) *lang.Stmt
+				mk = func(d int) *lang.Stmt {
+					own := fmt.Sprintf("v%d", d)
+					s := &lang.Stmt{Kind: lang.SDef, Name: "blk"}
+					s.Body = append(s.Body, vr(own, num(d)))
+					switch variant {
+					case 1:
+						s.Body = append(s.Body, vr("x", lang.Bin("+", lang.Id("x"), num(d)))) // shadows the x of the level above, reading it
+					case 2:
+						if d%2 == 0 {
+							s.Body = append(s.Body, vr("x", num(100+d)))
+						}
+					case 3:
+						s.Body = append(s.Body, vr("x", num(d)), vr("y", lang.Id("x")))
+					}
+					if d > 1 {
+						s.Body = append(s.Body, pr(lang.Bin("+", lang.Id(own), lang.Id(fmt.Sprintf("v%d", d-1)))))
+					}
+					if d < depth {
+						s.Body = append(s.Body, mk(d+1))
+					}
+					// after the inner block: this level's variables must still resolve as variables
+					s.Body = append(s.Body, ex(lang.Assign(own, lang.Bin("+", lang.Id(own), num(1000)))), pr(lang.Id(own)), pr(lang.Id("x")))
+					if variant == 3 {
+						s.Body = append(s.Body, pr(lang.Id("y")))
+					}
+					return s
+				}
+				run(i, &lang.Program{Stmts: []*lang.Stmt{vr("x", num(0)), vr("v0", num(0)), mk(1), pr(lang.Id("x")), pr(lang.Id("v0"))}}, "nesting_chain_with_variables")
+			}
+			i++
+		}
+	}
 	return i
 }
 
@@ -407,7 +446,7 @@ func init() {
 		Rule: "reference-model monitor on scope-centred programs: 1-14 toplevel statements, blocks nested to 5, names drawn from a pool of 4 so that shadowing, re-declaration, " +
 			"'var x = x+1', variable/field name reuse and embedded assignments are frequent; 6% of programs carry an injected static error (duplicate declaration, undefined name at toplevel). " +
 			"The reference has an environment chain and no slots. Compared: compile outcome and position of the first diagnostic, output, blocks, runtime-error class and line:column. " +
-			"distinct = hash of source; non-trivial = specified verdict and >= 1 declaration executed or a static error predicted Also: through the VM hook, the operand-stack depth right after every executed print must equal the number of variables the reference has alive there; identifiers of 63..256 bytes and names starting with '_'; 127..300 filler variables in front of 1 in 25 programs (more than 128 / 240 live locals); pairs of equal-length names colliding under a common 32-bit string hash (internal/lang/collide_table.go) as variable/variable, variable/field and variable/unknown name.",
+			"distinct = hash of source; non-trivial = specified verdict and >= 1 declaration executed or a static error predicted Also: through the VM hook, the operand-stack depth right after every executed print must equal the number of variables the reference has alive there; identifiers of 63..256 bytes and names starting with '_'; 127..300 filler variables in front of 1 in 25 programs (more than 128 / 240 live locals); pairs of equal-length names colliding under a common 32-bit string hash (internal/lang/collide_table.go) as variable/variable, variable/field and variable/unknown name; chains of blocks nested 1..16 deep with variables declared, shadowed and re-read at every level; variables named TYPE and NAME.",
 		Assumptions:   []string{"DESIGN §5.4 scoping rules are the language definition"},
 		MinNontrivial: 1000,
 		Run: func(c *core.Ctx) {
@@ -421,6 +460,10 @@ func init() {
 					}
 					if r.Intn(3) == 0 {
 						cfg.Names = []string{"x", "y"}
+					}
+					if r.Intn(6) == 0 {
+						// variables spelled like the block's built-in TYPE and NAME
+						cfg.Names = []string{"TYPE", "NAME", "x"}
 					}
 					if r.Intn(5) == 0 {
 						// identifiers around the 64- and 255-byte marks
